@@ -95,6 +95,23 @@ def trio_worlds(tier):
                     yield mk_trio(seed, k, vk, menu), dict(tag="PS", genetic_haplotyping=gh), [("C", "F", "M")]
 
 
+def trio_disconnected_worlds(tier):
+    """k = 4: two read-disconnected components ({0,1} and {2,3}) in a trio, every combination of members that
+    are homozygous at the four variants, with / without genetic haplotyping, trusted and distrusted genotypes"""
+    T = tier == "thorough"
+    seed = int(os.environ.get("VERIF_SEED", "0")) + 33
+    for vk in itertools.product(VKINDS, repeat=4):
+        for menu in ((("C", (0, 1)), ("C", (2, 3))), (("F", (0, 1)), ("M", (2, 3))), (("M", (0, 1)), ("M", (2, 3)))):
+            for gh in (True, False):
+                for distrust in (False, True):
+                    if not T and distrust and menu[0][0] != "M":
+                        continue
+                    opts = dict(tag="PS", genetic_haplotyping=gh)
+                    if distrust:
+                        opts["distrust_genotypes"] = True
+                    yield mk_trio(seed, 4, vk, menu), opts, [("C", "F", "M")]
+
+
 def mk_trio(seed, k, vk, menu):
     vs = [{"pos": 60 + 40 * i, "kind": "SNV", "len": 1} for i in range(k)]
     F, M, C = [], [], []
@@ -188,6 +205,14 @@ def judge(inst):
         fam = t["family"]
         acc = t["accessible_positions"]
         reads = [[x[0] for x in r["variants"]] for r in t["reads"]]
+        if opts.get("distrust_genotypes"):
+            # with distrusted genotypes a read links only the variants that are heterozygous in its own sample
+            id2name = {v: k for k, v in t["sample_ids"].items()}
+            pos2vi = {v["pos"]: vi for vi, v in enumerate(world["chroms"][0]["variants"])}
+            reads = []
+            for r in t["reads"]:
+                ent = world["haps"][id2name[r["sample_id"]]][t["chromosome"]]
+                reads.append([x[0] for x in r["variants"] if ent[pos2vi[x[0]]] not in ("hom0", "hom1", "miss")])
         # cross-check the traced reads against the read list written by the tool
         names_trace = sorted(r["name"] for r in t["reads"])
         master = None
@@ -248,6 +273,7 @@ def run(rep, tier, seed, only=None):
             yield from single_worlds(tier)
         if not only or "trio" in only:
             yield from trio_worlds(tier)
+            yield from trio_disconnected_worlds(tier)
 
     st = par.explore(space, run_one, label="C03")
     rep.add_violations(st.violations)
